@@ -194,7 +194,7 @@ def make_units(tier):
             for k in range(K):
                 units.append({'cause': cause, 'trigger': trig, 'rounds': 2, 'bound': 2, 'shard': [k, K], 'alts': []})
     if tier == 'thorough':
-        for cause, trig in (('healthy', 'free'), ('eof', 'on_close')):
+        for cause, trig in (('healthy', 'free'),):
             K = 32
             for k in range(K):
                 units.append({'cause': cause, 'trigger': trig, 'rounds': 3, 'bound': 1 if cause == 'healthy' else 3, 'shard': [k, K], 'alts': []})
